@@ -81,6 +81,8 @@ def main(c):
             open(path, 'wb').write(data + extra)
             exp = I.flatten(tree, 'FileMetaData' if kind == 'fm' else 'PageHeader', modelled_only=True)
             if kind == 'ph':
+                if any(l.startswith('8.1 ') for l in exp) and not any(l.startswith('8.7 ') for l in exp):
+                    exp.append('8.7 BOOL 1')          # DataPageHeaderV2.is_compressed: optional, default true
                 exp = [l for l in exp if not l.startswith('5.5.')]
                 exp = [('5.5 PRESENT' if l == '5.5 STRUCT' else l) for l in exp]
             cases.append((n, kind, path, len(data), sorted(exp), variant, data))
